@@ -24,7 +24,7 @@ import (
 var progPrios = []struct {
 	name string
 	val  int32
-}{{"p-low", 40}, {"p-train", 50}, {"p-mid", 75}, {"p-99", 99}, {"p-build", 100}, {"p-inf", 125}}
+}{{"p-low", 40}, {"p-train", 50}, {"p-51", 51}, {"p-mid", 75}, {"p-99", 99}, {"p-build", 100}, {"p-inf", 125}}
 
 type progGen struct {
 	r       *rand.Rand
@@ -164,6 +164,12 @@ func genProgress(seed int64, index int, tier string, kind string) *spec.Case {
 		}
 	}
 	_ = over
+	// preempt clusters: in a third of the cases the first leaf holds a higher-priority non-preemptible pending workload
+	// that is blocked by the non-preemptible quota rule next to a preemptible pending workload with victims
+	npBlock := kind == "preempt" && r.IntN(3) == 0
+	if npBlock {
+		leaves[0].quota = 0
+	}
 
 	mkQueue := func(name, parent string, quota, limit, oqw float64, prio *int) {
 		scale := 1.0
@@ -250,7 +256,10 @@ func genProgress(seed int64, index int, tier string, kind string) *spec.Case {
 	var runs []runSpec
 	for _, l := range leaves {
 		allNP := r.IntN(5) == 0 // a queue whose running work is entirely non-preemptible
-		lowOnly := kind == "preempt" && r.IntN(2) == 0
+		lowOnly := kind == "preempt" && (r.IntN(2) == 0 || (npBlock && l == leaves[0]))
+		if npBlock && l == leaves[0] {
+			allNP = false
+		}
 		for i := 0; i < l.alloc; i++ {
 			prio := pickR(r, "p-low", "p-train", "p-train", "p-mid", "p-99")
 			var pre enginev2alpha2.Preemptibility
@@ -289,14 +298,24 @@ func genProgress(seed int64, index int, tier string, kind string) *spec.Case {
 		default: // other queues of a preempt cluster: mostly quiet, sometimes competing (mixed)
 			n = pickR(r, 0, 0, 0, 1)
 		}
+		if npBlock && l == leaves[0] && n < 2 {
+			n = 2
+		}
 		for i := 0; i < n; i++ {
-			prio := pickR(r, "p-train", "p-mid", "p-mid", "p-99", "p-build", "p-inf", "p-low")
+			prio := pickR(r, "p-train", "p-51", "p-mid", "p-mid", "p-99", "p-build", "p-inf", "p-low")
 			var pre enginev2alpha2.Preemptibility
 			switch r.IntN(10) {
 			case 0:
 				pre = enginev2alpha2.NonPreemptible
 			case 1:
 				pre = enginev2alpha2.Preemptible
+			}
+			if npBlock && l == leaves[0] && i < 2 {
+				if i == 0 {
+					prio, pre = pickR(r, "p-build", "p-inf", "p-inf"), ""
+				} else {
+					prio, pre = pickR(r, "p-51", "p-mid", "p-99"), ""
+				}
 			}
 			g.workload(l.name, prio, pre, false)
 		}
